@@ -101,7 +101,7 @@ Proof. exact mapped_header_len. Qed.
 Print Assumptions C10_header_shape.
 
 Theorem C10_header_reads_back : forall bs meta h,
-  mapped_header meta = Some h -> has_prefix bs h = true -> ~ In 0 meta ->
+  mapped_header meta = Some h -> has_prefix bs h = true -> ~ In 0 meta -> len h + 2052 <= len bs ->
   spec_header bs = Some (len h, meta).
 Proof. exact spec_header_of_prefix. Qed.
 Print Assumptions C10_header_reads_back.
@@ -110,8 +110,8 @@ Print Assumptions C10_header_reads_back.
 Theorem C10_wf_file_meaning : forall bs, wf_file bs = true ->
   exists hdr meta kv limit rs,
     spec_header bs = Some (hdr, meta) /\ meta_kv meta = Some kv /\ spec_records bs = Some rs /\
-    has_prefix bs c_hdrPrefix = true /\ get32 bs 28 = hdr /\ hdr mod 32 = 0 /\ len meta <= 512 /\
-    (exists h, mapped_header meta = Some h /\ has_prefix bs h = true /\ len h = hdr) /\
+    has_prefix bs c_hdrPrefix = true /\ get32 bs 28 = hdr /\ hdr mod 32 = 0 /\ (32 <= hdr /\ hdr <= 16384) /\
+    meta = cut_nul (slice bs 32 (hdr - 32)) /\
     len bs mod 16384 = 0 /\ 16384 <= len bs /\
     limit = get32 bs hdr /\ limit <= len bs /\ limit mod 32 = 0 /\ (limit = 0 \/ hdr + 2052 <= limit) /\
     (forall r, In r rs ->
